@@ -91,14 +91,22 @@ def gen_history(rng):
         ws.append([idarg.hex(), [kv.hex() for kv in kvs]])
         known.add(idarg.strip().lstrip(b'+').lstrip(b'0') or b'0')
     fault = rng.random() < 0.08
-    return {'start': start.hex(), 'writes': ws, 'fault_at': (rng.randrange(n) if fault else -1)}
+    h = {'start': start.hex(), 'writes': ws, 'fault_at': (rng.randrange(n) if fault else -1)}
+    if rng.random() < 0.06:
+        # a large step file (beyond the stdio buffer) and a file system that accepts only the first KiBs of the rewrite
+        rows = rng.randint(75, 130)
+        big = 'step,name,exit,duration,delta,log,user,time,skip\n' + ''.join(
+            '%d,step-number-%d-with-a-long-name,0,%d,0,%03d-step-number-%d.log,root,17000000%02d,0\n' % (i, i, i, i, i, i % 100) for i in range(1, rows + 1))
+        h = {'start': big.encode().hex(), 'writes': ws[:3], 'fault_at': rng.randrange(min(3, len(ws))), 'fault_blocks': rng.choice([0, 1, 4, 5])}
+    return h
 
 
-def sh_write(impl, path, idarg, kvs, fault):
+def sh_write(impl, path, idarg, kvs, fault, blocks=0):
     args = [os.path.join(impl, 'robsd-step'), '-W', '-f', path, '-i', idarg, '--'] + kvs
     if fault:
-        # ulimit -f 0 with SIGXFSZ ignored: every write(2) to a regular file fails with EFBIG
-        cmd = ['bash', '-c', 'trap "" XFSZ; ulimit -f 0; exec "$@"', 'x'] + args
+        # ulimit -f N (1024-byte blocks) with SIGXFSZ ignored: write(2) beyond N KiB fails with EFBIG; N = 0 refuses
+        # everything, N > 0 lets the first part of a large file through and refuses the rest (partial write)
+        cmd = ['bash', '-c', 'trap "" XFSZ; ulimit -f %d; exec "$@"' % blocks, 'x'] + args
     else:
         cmd = args
     r = subprocess.run(cmd, stdout=subprocess.PIPE, stderr=subprocess.PIPE, timeout=20)
@@ -122,7 +130,7 @@ def run_history(impl, work, idx, h):
     for i, (idh, kvh) in enumerate(h['writes']):
         before = open(path, 'rb').read()
         fault = (i == h['fault_at'])
-        rc, err = sh_write(impl, path, bytes.fromhex(idh), [bytes.fromhex(k) for k in kvh], fault)
+        rc, err = sh_write(impl, path, bytes.fromhex(idh), [bytes.fromhex(k) for k in kvh], fault, h.get('fault_blocks', 0))
         after = open(path, 'rb').read()
         steps.append({'before': before, 'rc': rc, 'after': after, 'fault': fault, 'stderr': err[-200:]})
     final = open(path, 'rb').read()
